@@ -9,6 +9,9 @@ def run(tier, seed):
     known = common.Known().devs("C01")
     live = schemafam.live_devs(check, vh, "Trace_Schema", known)
     quick = tier == "quick"
+    fails, smeta = schemafam.oracle_selfcheck(check, vh, "Trace_Schema", live)
+    schemafam.classify(check, fails, live)
+    check.coverage["evaluations"] += smeta["events"]
     runs = [
         ("pairwise", ["-mode", "pairwise", "-seed", seed, "-n", 700 if quick else 0, "-chunk", 6000]),
         ("random", ["-mode", "random", "-seed", seed, "-n", 4000 if quick else 120000, "-per", 4, "-depth", 3 if quick else 4, "-chunk", 4000]),
